@@ -289,6 +289,14 @@ func managerScenarios(thorough bool) []*scenario {
 		// every one of them has to be cancelled while others finish and leave the list
 		{script: []string{"silent", "silent", "silent", "silent"}, concurrent: 4, requests: 1, interrupt: true, after: 16 * time.Second},
 	}
+	// no node can ever serve the block: the manager gives up after twenty request ticks and its Run
+	// returns the error by itself (nobody interrupts it); a request queued behind the failed one, or
+	// added afterwards, is refused or dropped with the manager visibly stopped - never left waiting
+	// on a manager that still looks alive
+	configs = append(configs,
+		mgrConfig{script: []string{"none"}, concurrent: 1, requests: 1},
+		mgrConfig{script: []string{"none"}, concurrent: 1, requests: 2},
+		mgrConfig{script: []string{"drop"}, concurrent: 2, requests: 2})
 	if thorough {
 		configs = append(configs,
 			mgrConfig{script: []string{"slow", "deliver"}, concurrent: 2, requests: 1, abort: true},
@@ -296,7 +304,6 @@ func managerScenarios(thorough bool) []*scenario {
 			mgrConfig{script: []string{"drop", "drop", "deliver"}, concurrent: 1, requests: 1},
 			mgrConfig{script: []string{"deliver", "drop", "deliver"}, concurrent: 1, requests: 2, abort: true},
 			mgrConfig{script: []string{"silent", "silent", "deliver"}, concurrent: 3, requests: 1},
-			mgrConfig{script: []string{"none"}, concurrent: 1, requests: 1},
 			mgrConfig{script: []string{"silent", "silent", "silent", "silent"}, concurrent: 4, requests: 1, abort: true, after: 16 * time.Second},
 			mgrConfig{script: []string{"drop-busy", "drop-busy", "deliver"}, concurrent: 2, requests: 1, interrupt: false, abort: false},
 		)
